@@ -155,6 +155,8 @@ class _Response:
   def __init__(self, env, data, status=200):
     self.env = env
     self.headers = {'content-length': str(len(data)), 'Content-Length': str(len(data))}
+    if getattr(env, 'headerless', False):
+      self.headers = {}       # a server that sends no content-length (close-delimited body)
     self.raw = _Raw(env, data)
     self.status_code = status
     self.ok = status < 400
@@ -880,6 +882,31 @@ def run_scenario(ctx, env, op, scratch, stale, faults, preseed=False, other_spli
   ctx.case_done(key, sample=wit, klass=sorted(set(klass)))
 
 
+def run_headerless(ctx, env, op, scratch, fault):
+  wit = {'operation': op.name, 'payload': op.label, 'server': 'no content-length header',
+         'faults': [fault_label(fault)] if fault else []}
+  d = tempfile.mkdtemp(prefix='c19-', dir=scratch)
+  try:
+    env.root, env.watch = d, op.watch(d)
+    op.prepare(d)
+    j = Judge(ctx, env, op, wit)
+    env.headerless = True
+    try:
+      res = run_call(env, op, d, fault)
+    finally:
+      env.headerless = False
+    if res['outcome'] == 'returned':
+      j.outcome(d, res, [], 'headerless-call', {'fault': fault_label(fault) if fault else None})
+    j.interruption(res, fault_label(fault) if fault else 'none')
+    ctx.count('headerless-server')
+    j.later_call(d)          # an ordinary server again: the cache must be repaired / complete
+    j.reuse(d)
+  finally:
+    env.headerless = False
+    shutil.rmtree(d, ignore_errors=True)
+  ctx.case_done((op.name, op.label, 'headerless', fault_label(fault) if fault else None), sample=wit, klass=['headerless-server'])
+
+
 def run_invalid_download(ctx, env, lop, scratch, cls):
   """load_split on a cache whose downloaded file is present but invalid (truncated / same-size garbage).
 
@@ -1052,6 +1079,20 @@ def _run(ctx, env, scratch, downloads, cifar100, sqlite_fd):
         scen.append((op, st, [f], False))
   for cid, (op, st, faults, pre) in ctx.enum('single', scen):
     run_scenario(ctx, env, op, scratch, st, faults, preseed=pre)
+
+  # ---- (1b) a server that sends NO content-length header: whatever the call does (today it raises KeyError and
+  #      publishes nothing), a connection error at any block must never publish a truncated file
+  hscen = []
+  for op, size, kind in ops:
+    if op.name != 'download':
+      continue
+    sp = spaces[(op.name, op.label)]
+    hscen.append((op, None))
+    for f in single_faults(op, sp):
+      if f['kind'] == 'read':
+        hscen.append((op, f))
+  for cid, (op, f) in ctx.enum('headerless', hscen):
+    run_headerless(ctx, env, op, scratch, f)
 
   # ---- (2) seeded random sequences of 1-3 faults (+ optional stale start)
   nseq = 400 if quick else 20000
